@@ -202,6 +202,9 @@ type ReplayFile struct {
 	Reproduced   bool     `json:"reproduced"`
 	Note         string   `json:"note"`
 	SMTFile      string   `json:"smt_file"`
+	SynthSource  string   `json:"spec_source,omitempty"` // the contract clauses as executable Go (replay oracle)
+	Oracle       string   `json:"oracle,omitempty"`
+	FoundInput   string   `json:"found_input,omitempty"`
 }
 
 // buildReplay extracts a model for a failed obligation and synthesises a Go test.
@@ -352,7 +355,7 @@ func (e *Engine) buildReplay(r *FnResult, o *Obl, smt string) *ReplayFile {
 	}
 	fmt.Fprintf(&b, "\t\treturn %s\n\t}\n", strings.Join(args, ", "))
 	fmt.Fprintf(&b, "\tout := map[string]any{\"obligation\": %q, \"mode\": %q}\n", o.Name, mode)
-	fmt.Fprintf(&b, "\treproduced, panicked := false, false\n\tvar last string\n")
+	fmt.Fprintf(&b, "\treproduced, panicked := false, false\n\tvar last, oracle, found string\n\t_, _ = oracle, found\n")
 	fmt.Fprintf(&b, "\tfor iter := 0; iter < %d && !reproduced; iter++ {\n", iters)
 	fmt.Fprintf(&b, "\t\tfunc() {\n")
 	fmt.Fprintf(&b, "\t\t\tdefer func() {\n\t\t\t\tif r := recover(); r != nil {\n\t\t\t\t\tpanicked = true\n\t\t\t\t\tlast = fmt.Sprintf(\"panic: %%v\", r)\n")
@@ -384,13 +387,91 @@ func (e *Engine) buildReplay(r *FnResult, o *Obl, smt string) *ReplayFile {
 		}
 		fmt.Fprintf(&b, "\t\t\tlast = fmt.Sprintf(%q, %s)\n", strings.Join(fm, ", "), strings.Join(resNames, ", "))
 	}
+	// executable oracle: the failed postcondition clause itself, evaluated on the real inputs and outputs
+	oracleCall := ""
+	if mode == "post" && o.Cl != nil && o.Cl.GoFn != "" && clauseExecutable(o.Cl.GoExpr) {
+		if synth, ok := execSynthSource(e.prog.SynthSrc[c.pkg.Path]); ok {
+			var cargs []string
+			good := true
+			for _, pn := range o.Cl.Params {
+				found := ""
+				for i, it := range c.inputTerms {
+					if it.name == pn && i < len(argNames) {
+						found = argNames[i]
+					}
+				}
+				for j, rn := range c.resultNames {
+					if rn == pn && j < len(resNames) {
+						found = resNames[j]
+					}
+				}
+				if found == "" {
+					good = false
+				}
+				cargs = append(cargs, found)
+			}
+			if good {
+				oracleCall = o.Cl.GoFn + "(" + strings.Join(cargs, ", ") + ")"
+				rf.SynthSource = synth
+			}
+		}
+	}
 	switch mode {
 	case "post":
-		fmt.Fprintf(&b, "\t\t\tif %s {\n\t\t\t\treproduced = true\n\t\t\t}\n", match)
+		if oracleCall != "" {
+			// the clause decides; if it turns out not to be executable on these values, fall back to the model's prediction
+			fmt.Fprintf(&b, "\t\t\tfunc() {\n\t\t\t\tdefer func() {\n\t\t\t\t\tif r := recover(); r != nil {\n\t\t\t\t\t\tif _, ne := r.(v_nonexec); ne {\n\t\t\t\t\t\t\toracle = fmt.Sprintf(\"not executable: %%v\", r)\n\t\t\t\t\t\t\tif %s {\n\t\t\t\t\t\t\t\treproduced = true\n\t\t\t\t\t\t\t}\n\t\t\t\t\t\t\treturn\n\t\t\t\t\t\t}\n\t\t\t\t\t\tpanic(r)\n\t\t\t\t\t}\n\t\t\t\t}()\n", match)
+			fmt.Fprintf(&b, "\t\t\t\tif %s {\n\t\t\t\t\toracle = \"clause holds\"\n\t\t\t\t} else {\n\t\t\t\t\toracle = \"clause violated\"\n\t\t\t\t\treproduced = true\n\t\t\t\t}\n\t\t\t}()\n", oracleCall)
+		} else {
+			fmt.Fprintf(&b, "\t\t\tif %s {\n\t\t\t\treproduced = true\n\t\t\t}\n", match)
+		}
 	case "frame":
 		fmt.Fprintf(&b, "\t\t\tif %s {\n\t\t\t\treproduced = true\n\t\t\t}\n", strings.Join(changed, " || "))
 	}
 	fmt.Fprintf(&b, "\t\t}()\n\t}\n")
+	// small-scope sweep: when the model's input does not violate the (executable) clause, run the real function
+	// against the clause over a small pool of values per parameter
+	if oracleCall != "" && sig.Recv() == nil && len(argNames) > 0 && len(argNames) <= 3 && !sig.Variadic() {
+		var pools []string
+		okPools := true
+		for _, it := range c.inputTerms {
+			p := sweepPool(g, it.typ)
+			if p == "" {
+				okPools = false
+			}
+			pools = append(pools, p)
+		}
+		if okPools {
+			fmt.Fprintf(&b, "\tif !reproduced && !%s.HasPrefix(oracle, \"not executable\") {\n\t\ttried := 0\n", g.imp("strings", "strings"))
+			ind := "\t\t"
+			for i, p := range pools {
+				fmt.Fprintf(&b, "%sfor _, %s := range %s {\n", ind, argNames[i], p)
+				ind += "\t"
+			}
+			fmt.Fprintf(&b, "%sif found != \"\" || tried > 200000 {\n%s\tcontinue\n%s}\n%stried++\n", ind, ind, ind, ind)
+			fmt.Fprintf(&b, "%sfunc() {\n%s\tdefer func() { recover() }()\n%s\t%s%s\n", ind, ind, ind, assign, call)
+			var fm, shown []string
+			for _, an := range argNames {
+				fm = append(fm, "%#v")
+				shown = append(shown, an)
+			}
+			fmt.Fprintf(&b, "%s\tif !%s {\n%s\t\tfound = fmt.Sprintf(%q, %s)\n", ind, oracleCall, ind, strings.Join(fm, ", "), strings.Join(shown, ", "))
+			if len(resNames) > 0 {
+				var fr []string
+				for range resNames {
+					fr = append(fr, "%#v")
+				}
+				fmt.Fprintf(&b, "%s\t\tlast = fmt.Sprintf(%q, %s)\n", ind, strings.Join(fr, ", "), strings.Join(resNames, ", "))
+			}
+			fmt.Fprintf(&b, "%s\t}\n%s}()\n", ind, ind)
+			for range pools {
+				ind = ind[:len(ind)-1]
+				fmt.Fprintf(&b, "%s}\n", ind)
+			}
+			fmt.Fprintf(&b, "\t\tif found != \"\" {\n\t\t\treproduced = true\n\t\t\toracle = \"clause violated (input found by the small-scope sweep, not the solver's model)\"\n\t\t}\n\t\tout[\"swept\"] = tried\n\t}\n")
+		}
+	}
+	fmt.Fprintf(&b, "\tout[\"oracle\"], out[\"found_input\"] = oracle, found\n")
 	fmt.Fprintf(&b, "\tout[\"reproduced\"], out[\"panicked\"], out[\"real_output\"] = reproduced, panicked, last\n")
 	fmt.Fprintf(&b, "\tjs, _ := json.Marshal(out)\n\tfmt.Printf(\"VERIF-REPLAY %%s\\n\", js)\n}\n")
 	var hdr strings.Builder
@@ -507,6 +588,11 @@ func runReplay(rf *ReplayFile, repoDir, workDir string) {
 	ov := filepath.Join(workDir, sanitizeFile(rf.Obligation)+"_overlay.json")
 	target := filepath.Join(rf.TestPkgDir, "zz_verif_replay_test.go")
 	repl := map[string]string{target: src}
+	if rf.SynthSource != "" {
+		ss := filepath.Join(workDir, sanitizeFile(rf.Obligation)+"_spec_test.go")
+		os.WriteFile(ss, []byte(rf.SynthSource), 0o644)
+		repl[filepath.Join(rf.TestPkgDir, "zz_verif_spec_test.go")] = ss
+	}
 	// the package's own test files are not needed for the replay (and some import packages whose sources are
 	// absent in this sandbox): hide them
 	if others, err := filepath.Glob(filepath.Join(rf.TestPkgDir, "*_test.go")); err == nil {
@@ -514,9 +600,25 @@ func runReplay(rf *ReplayFile, repoDir, workDir string) {
 			repl[f] = ""
 		}
 	}
+	script := fmt.Sprintf("ulimit -v 8000000; cd %q && go test -overlay %q -vet=off -v -count=1 -timeout 60s -run '^TestVerifReplay$' . 2>&1", rf.TestPkgDir, ov)
+	if _, err := os.Stat(rf.TestPkgDir); err != nil && strings.Contains(rf.TestPkgDir, "/"+genDirName+"/") {
+		// generated package: it exists only through the overlay, so the test binary is built with -c and run from the work directory
+		for v, real := range genOverlayFiles {
+			repl[v] = real
+		}
+		root := rf.TestPkgDir[:strings.Index(rf.TestPkgDir, "/"+genDirName+"/")]
+		rel := "./" + strings.TrimPrefix(rf.TestPkgDir, root+"/")
+		bin := filepath.Join(workDir, "replay.test")
+		script = fmt.Sprintf("ulimit -v 8000000; cd %q && go test -overlay %q -vet=off -c -o %q %q 2>&1 && cd %q && %q -test.v -test.count=1 -test.timeout 60s -test.run '^TestVerifReplay$' 2>&1; rm -f %q",
+			root, ov, bin, rel, workDir, bin, bin)
+		if len(genOverlayFiles) == 0 {
+			rf.Note = "generated code is not available for the replay (re-run the check)"
+			return
+		}
+	}
 	js, _ := json.Marshal(map[string]any{"Replace": repl})
 	os.WriteFile(ov, js, 0o644)
-	cmd := exec.Command("bash", "-c", fmt.Sprintf("ulimit -v 8000000; cd %q && go test -overlay %q -vet=off -v -count=1 -timeout 60s -run '^TestVerifReplay$' . 2>&1", rf.TestPkgDir, ov))
+	cmd := exec.Command("bash", "-c", script)
 	cmd.Env = append(os.Environ(), "GOFLAGS=-mod=mod", "GOPROXY=off", "GOSUMDB=off", "GOTOOLCHAIN=local")
 	done := make(chan struct{})
 	var out []byte
@@ -538,6 +640,13 @@ func runReplay(rf *ReplayFile, repoDir, workDir string) {
 			if json.Unmarshal([]byte(strings.TrimPrefix(l, "VERIF-REPLAY ")), &m) == nil {
 				if b, ok := m["reproduced"].(bool); ok {
 					rf.Reproduced = b
+				}
+				if s, ok := m["oracle"].(string); ok {
+					rf.Oracle = s
+				}
+				if s, ok := m["found_input"].(string); ok && s != "" {
+					rf.FoundInput = s
+					rf.Inputs = []string{"found by the small-scope sweep against the executable clause: " + s}
 				}
 				rf.RealOutput = strings.TrimPrefix(l, "VERIF-REPLAY ")
 				if rf.Reproduced {
